@@ -115,6 +115,8 @@ def replay(mod, path):
             return 1
         print('recorded violation %r does not reproduce on this tree' % rp['sig'])
         return 0
+    for pc in rp.get('prefix', []):
+        core.call_case(mod, rp['fn'], pc)       # the cases that ran before it in the recorded sequence
     r = core.call_case(mod, rp['fn'], rp['case'])
     sigs = [v['sig'] for v in r.violations]
     print('replay %s: %d oracle comparisons, violations: %s' % (path, r.checks, sigs))
@@ -142,11 +144,11 @@ def finish(ctx, mod, write_evidence=True):
     CAP = 120
     todo.sort(key=lambda s_: (core.known_for(prop, s_, known) is not None, s_))
     if len(todo) > CAP:
-        # round-robin over the kinds of signature (their first path component), so that one prolific kind does not
+        # round-robin over the kinds of signature (their first two path components), so that one prolific kind does not
         # crowd out the others
         groups = {}
         for s_ in todo:
-            groups.setdefault(s_.split('/')[0], []).append(s_)
+            groups.setdefault('/'.join(s_.split('/')[:2]), []).append(s_)
         picked = []
         while len(picked) < CAP and any(groups.values()):
             for g_ in sorted(groups):
@@ -161,6 +163,7 @@ def finish(ctx, mod, write_evidence=True):
     first = dict(zip(todo, core.isolated_calls_many(mod.__name__, ctx.seed, ctx.repo,
                                                     [(ctx.viol[s_]['fn'], ctx.viol[s_]['case']) for s_ in todo], 2,
                                                     parallel=max(2, min(8, ctx.workers)))))
+    fallback_spent = [0.0]
     for sig in sorted(ctx.viol):
         e = ctx.viol[sig]
         if sig.startswith('harness/'):
@@ -183,9 +186,41 @@ def finish(ctx, mod, write_evidence=True):
         else:
             ok = status == 'ok' and all(sig in c_ for c_ in calls)
         if not ok and not sig.startswith('crash/') and status == 'ok' and sig not in calls[0]:
-            # not even the first execution in a fresh process shows it: it depends on what ran before in its worker
-            harness.append(dict(e, sig='harness/nondeterministic-violation/' + sig))
-            continue
+            # not even the first execution in a fresh process shows it: this exemplar depends on what ran before it in
+            # its worker.  Another case with the same signature may fail on its own.
+            # (bounded effort: not when three violations are already confirmed, nor beyond three minutes in total)
+            t_fb = time.time()
+            spend = fallback_spent[0] < 180.0 and n_viol < 3
+            for alt in (e.get('alts', []) if spend else []):
+                st_a, calls_a = core.isolated_calls(mod.__name__, ctx.seed, ctx.repo, alt['fn'], alt['case'], 2)
+                if st_a == 'ok' and all(sig in c_ for c_ in calls_a):
+                    e = dict(e, fn=alt['fn'], case=alt['case'], detail=alt['detail'])
+                    ok = True
+                    break
+            if not ok and e.get('prefix') and spend:
+                # ... or it fails as the end of a short sequence of cases: the cases its worker ran immediately before
+                # it (process-wide state left behind by an earlier case is part of the history, and the sequence is the
+                # replayable schedule).  Shortest suffix of that run, by doubling; twice, in two fresh processes.
+                pre = e['prefix']
+                k_ = 1
+                while not ok:
+                    seq = pre[-k_:] + [e['case']]
+                    st1, s1 = core.isolated_sequence(mod.__name__, ctx.seed, ctx.repo, e['fn'], seq)
+                    if st1 == 'ok' and sig in s1:
+                        st2, s2 = core.isolated_sequence(mod.__name__, ctx.seed, ctx.repo, e['fn'], seq)
+                        if st2 == 'ok' and sig in s2:
+                            ok = True
+                            e = dict(e, replay_prefix=pre[-k_:])
+                            e['detail'] = dict(e['detail'], replay_note='fails as the last of a sequence of %d cases run '
+                                               'in one process (state left behind by an earlier case)' % (len(seq)))
+                            break
+                    if k_ >= len(pre):
+                        break
+                    k_ = min(len(pre), k_ * 2)
+            fallback_spent[0] += time.time() - t_fb
+            if not ok:
+                harness.append(dict(e, sig='harness/nondeterministic-violation/' + sig))
+                continue
         if not ok and not sig.startswith('crash/'):
             ok = replay_in_fresh_process(prop, e, ctx.seed, ctx.repo) and \
                 replay_in_fresh_process(prop, e, ctx.seed, ctx.repo)
@@ -205,9 +240,12 @@ def finish(ctx, mod, write_evidence=True):
         name = core.ohash(sig) + '.json'
         path = os.path.join(rdir, name)
         with open(path, 'w') as f:
-            json.dump({'property': prop, 'fn': e['fn'], 'case': core.jsonable(e['case']),
-                       'sub': e['sub'], 'sig': sig, 'detail': e['detail'], 'seed': ctx.seed,
-                       'tier': ctx.tier, 'cases_with_this_signature': e['count']}, f, indent=1)
+            rec = {'property': prop, 'fn': e['fn'], 'case': core.jsonable(e['case']),
+                   'sub': e['sub'], 'sig': sig, 'detail': e['detail'], 'seed': ctx.seed,
+                   'tier': ctx.tier, 'cases_with_this_signature': e['count']}
+            if e.get('replay_prefix'):
+                rec['prefix'] = core.jsonable(e['replay_prefix'])      # cases to run first, in the same process
+            json.dump(rec, f, indent=1)
         lines.append('VIOLATION property=%s replay=%s' % (prop, path))
         lines.append('  signature=%s cases=%d detail=%s' % (
             sig, e['count'], json.dumps(e['detail'])[:400]))
